@@ -49,6 +49,21 @@ CHECKS = {
         "accepted; one recorded finding (C06-1) excluded by construction and reported",
         "DESIGN.md §4 C06",
     ),
+    "C10": (
+        "exploration",
+        "Hypothesis-generated WebSocket message sequences x byte-level fragmentation x "
+        "permessage-deflate x interleaved pings x read segmentation x carriers x workers; oracle "
+        "= round trip through an own RFC 6455 encoder/decoder and a size-limit reference model",
+        "Messages (text/binary, empty to 70 KB, sizes within +-1 of websocket_max_message_size "
+        "0..64) fragmented at byte level (inside code points), compressed or not, with pings "
+        "between fragments, over HTTP/1.1 upgrade and HTTP/2 extended CONNECT: the application "
+        "must receive each complete message once, in order, same type and payload; nothing at "
+        "or after the first over-limit message, 1009 sent; pongs echo pings; application "
+        "messages decoded from the server's frames must equal what it sent.",
+        "in-memory transport models; pings after an over-limit message unconstrained; one "
+        "recorded third-party finding (C10-1, wsproto) excluded by construction and reported",
+        "DESIGN.md §4 C10",
+    ),
     "C17": (
         "exploration",
         "Hypothesis-generated requests x WSGI application shapes through WSGIWrapper, the WSGI "
